@@ -15,6 +15,13 @@
 
    Observables: `calls` (every call with its arguments), and the abstract response
    <<status, body, hdrs, vary>> plus `escaped` (an exception left the application callable).
+   hdrs: the raising calls whose exceptions' own headers are on the response.  vary: the tokens of the
+   Vary header: 0 = Accept, k > 0 = the token call k appended when it put its marker body on the
+   response, -k = the Vary header the exception raised by call k carries itself (classes with
+   OwnVary).  An error's headers are *set* (replacing a same-named header), Accept is *appended*.
+
+   One application object serves up to MaxReqs requests; error handlers may be registered between
+   them (NextRequest returns to the setup phase), so the registry a request sees is a history.
 
    Abstract body values:   none | mark(k): set by call k | err(k): rendering of the HTTP error raised
    by call k | e500: rendering of a fresh HTTPInternalServerError | stext(k): text of the HTTP status
@@ -33,14 +40,17 @@ CONSTANTS Stacks,         \* set of component stacks: sequences of subsets of {"
           RenderClasses,  \* exception classes offered to the body-rendering site
           Mro,            \* class name -> its linearisation (sequence of class names, itself first)
           StatusOf,       \* class name -> HTTP status its instances carry (0: not an HTTP class)
+          OwnVary,        \* class name -> instances carry a Vary header of their own (besides their marker headers)
+          MaxReqs,        \* requests served by one application object (handlers may be added between them)
           WrongDesign     \* "none", or the name of a deliberately wrong design (vacuity control)
 
 VARIABLES shape, indep, target, nb, na, reg,                      \* assembly
           phase, i, complete, succeeded, hasres, dep, left, pend, \* control state of the request
+          nreq,                                                   \* number of the request being served by this application object
           calls, faults,                                          \* observable call sequence; number of non-return choices
           status, body, hdrs, vary, escaped                       \* abstract response
 
-cfgv  == <<shape, indep, target, nb, na>>
+cfgv  == <<shape, indep, target, nb, na, nreq>>     \* what no step of a request changes
 ctlv  == <<phase, i, complete, succeeded, hasres, dep, left, pend>>
 respv == <<status, body, hdrs, vary, escaped>>
 vars  == <<cfgv, reg, ctlv, calls, faults, respv>>
@@ -68,8 +78,8 @@ Init == /\ shape \in Stacks /\ indep \in Indeps /\ target \in Targets
         /\ reg \in {Defaults \o r : r \in InitRegs}
         /\ phase = "setup" /\ i = 1 /\ complete = FALSE /\ succeeded = FALSE /\ hasres = FALSE
         /\ dep = <<>> /\ left = <<>> /\ pend = NoPend
-        /\ calls = <<>> /\ faults = 0
-        /\ status = 200 /\ body = NoBody /\ hdrs = {} /\ vary = FALSE /\ escaped = FALSE
+        /\ nreq = 1 /\ calls = <<>> /\ faults = 0
+        /\ status = 200 /\ body = NoBody /\ hdrs = {} /\ vary = {} /\ escaped = FALSE
 
 (* ------------------------------ assembly ------------------------------ *)
 AddHandler(cls, beh) ==
@@ -79,6 +89,14 @@ AddHandler(cls, beh) ==
 
 Start == /\ phase = "setup" /\ phase' = "req"
          /\ UNCHANGED <<cfgv, reg, i, complete, succeeded, hasres, dep, left, pend, calls, faults, respv>>
+
+(* the same application object serves another request; what it has registered stays *)
+NextRequest ==
+    /\ phase = "end" /\ nreq < MaxReqs
+    /\ nreq' = nreq + 1 /\ phase' = "setup" /\ i' = 1 /\ complete' = FALSE /\ succeeded' = FALSE /\ hasres' = FALSE
+    /\ dep' = <<>> /\ left' = <<>> /\ pend' = NoPend /\ calls' = <<>> /\ faults' = 0
+    /\ status' = 200 /\ body' = NoBody /\ hdrs' = {} /\ vary' = {} /\ escaped' = FALSE
+    /\ UNCHANGED <<shape, indep, target, nb, na, reg>>
 
 (* ------------------------- handler selection --------------------------- *)
 Reverse(s) == [j \in 1..Len(s) |-> s[Len(s) + 1 - j]]
@@ -104,6 +122,7 @@ QueueOf(j) == IF ~indep /\ "resp" \in shape[j] THEN <<j>> \o dep ELSE dep
 RaiseAt(site, c, cls, back, marks) ==
     /\ calls' = Append(calls, Call(site, c, "raise", cls, hasres, succeeded, 0))
     /\ body' = (IF marks THEN Mark(Idx) ELSE body)
+    /\ vary' = (IF marks THEN vary \cup {Idx} ELSE vary)
     /\ pend' = [cls |-> cls, idx |-> Idx, back |-> back]
     /\ phase' = "handle"
 
@@ -113,10 +132,10 @@ ReqCall(act, cls) ==
     /\ \/ /\ act = "ret"
           /\ calls' = Append(calls, Call("req", i, "ret", "", FALSE, FALSE, 0))
           /\ i' = i + 1 /\ dep' = QueueOf(i)
-          /\ UNCHANGED <<phase, complete, pend, body, faults>>
+          /\ UNCHANGED <<phase, complete, pend, body, vary, faults>>
        \/ /\ act = "complete"
           /\ calls' = Append(calls, Call("req", i, "complete", "", FALSE, FALSE, 0))
-          /\ i' = i + 1 /\ dep' = QueueOf(i) /\ complete' = TRUE /\ body' = Mark(Idx)
+          /\ i' = i + 1 /\ dep' = QueueOf(i) /\ complete' = TRUE /\ body' = Mark(Idx) /\ vary' = vary \cup {Idx}
           /\ faults' = faults + 1
           /\ UNCHANGED <<phase, pend>>
        \/ /\ act = "raise"
@@ -124,7 +143,7 @@ ReqCall(act, cls) ==
           /\ dep' = (IF WrongDesign = "queue_before_call" THEN QueueOf(i) ELSE dep)
           /\ faults' = faults + 1
           /\ UNCHANGED <<i, complete>>
-    /\ UNCHANGED <<cfgv, reg, succeeded, hasres, left, status, hdrs, vary, escaped>>
+    /\ UNCHANGED <<cfgv, reg, succeeded, hasres, left, status, hdrs, escaped>>
 
 ReqSkip ==      \* no process_request here, or (dependent mode) the response is already complete
     /\ phase = "req" /\ i <= N /\ ~("req" \in shape[i] /\ ~complete) /\ ~(indep /\ complete)
@@ -154,15 +173,15 @@ RsrcCall(act, cls) ==
     /\ \/ /\ act = "ret"
           /\ calls' = Append(calls, Call("rsrc", i, "ret", "", TRUE, FALSE, 0))
           /\ i' = i + 1
-          /\ UNCHANGED <<phase, complete, pend, body, faults>>
+          /\ UNCHANGED <<phase, complete, pend, body, vary, faults>>
        \/ /\ act = "complete"
           /\ calls' = Append(calls, Call("rsrc", i, "complete", "", TRUE, FALSE, 0))
-          /\ i' = i + 1 /\ complete' = TRUE /\ body' = Mark(Idx) /\ faults' = faults + 1
+          /\ i' = i + 1 /\ complete' = TRUE /\ body' = Mark(Idx) /\ vary' = vary \cup {Idx} /\ faults' = faults + 1
           /\ UNCHANGED <<phase, pend>>
        \/ /\ act = "raise"
           /\ RaiseAt("rsrc", i, cls, "enter", TRUE) /\ faults' = faults + 1
           /\ UNCHANGED <<i, complete>>
-    /\ UNCHANGED <<cfgv, reg, succeeded, hasres, dep, left, status, hdrs, vary, escaped>>
+    /\ UNCHANGED <<cfgv, reg, succeeded, hasres, dep, left, status, hdrs, escaped>>
 
 RsrcSkip ==
     /\ phase = "rsrc" /\ i <= N /\ "rsrc" \notin shape[i] /\ ~complete
@@ -180,10 +199,10 @@ BeforeCall(act, cls) ==
     /\ phase = "before" /\ i <= nb
     /\ \/ /\ act = "ret"
           /\ calls' = Append(calls, Call("before", i, "ret", "", TRUE, FALSE, 0))
-          /\ i' = i + 1 /\ UNCHANGED <<phase, pend, body, faults>>
+          /\ i' = i + 1 /\ UNCHANGED <<phase, pend, body, vary, faults>>
        \/ /\ act = "raise"
           /\ RaiseAt("before", i, cls, "enter", TRUE) /\ faults' = faults + 1 /\ UNCHANGED i
-    /\ UNCHANGED <<cfgv, reg, complete, succeeded, hasres, dep, left, status, hdrs, vary, escaped>>
+    /\ UNCHANGED <<cfgv, reg, complete, succeeded, hasres, dep, left, status, hdrs, escaped>>
 
 BeforeDone ==
     /\ phase = "before" /\ i > nb /\ phase' = "responder"
@@ -194,24 +213,24 @@ ResponderCall(act, cls) ==
     /\ phase = "responder" /\ target # "unrouted"
     /\ \/ /\ act = "ret"                                  \* a responder that returns has produced a body
           /\ calls' = Append(calls, Call(RespSite, 0, "ret", "", hasres, FALSE, 0))
-          /\ body' = Mark(Idx) /\ phase' = "after" /\ i' = 1 /\ UNCHANGED <<pend, faults>>
+          /\ body' = Mark(Idx) /\ vary' = vary \cup {Idx} /\ phase' = "after" /\ i' = 1 /\ UNCHANGED <<pend, faults>>
        \/ /\ act = "raise"
           /\ RaiseAt(RespSite, 0, cls, "enter", TRUE) /\ faults' = faults + 1 /\ UNCHANGED i
-    /\ UNCHANGED <<cfgv, reg, complete, succeeded, hasres, dep, left, status, hdrs, vary, escaped>>
+    /\ UNCHANGED <<cfgv, reg, complete, succeeded, hasres, dep, left, status, hdrs, escaped>>
 
-NotFound ==     \* nothing matched: the framework's own responder raises HTTPNotFound
+NotFound ==     \* nothing matched: the framework's own responder raises its HTTPRouteNotFound (no headers of its own)
     /\ phase = "responder" /\ target = "unrouted"
-    /\ RaiseAt("notfound", 0, "HTTPNotFound", "enter", FALSE)
-    /\ UNCHANGED <<cfgv, reg, i, complete, succeeded, hasres, dep, left, faults, status, hdrs, vary, escaped>>
+    /\ RaiseAt("notfound", 0, "HTTPRouteNotFound", "enter", FALSE)
+    /\ UNCHANGED <<cfgv, reg, i, complete, succeeded, hasres, dep, left, faults, status, hdrs, escaped>>
 
 AfterCall(act, cls) ==                                    \* i-th after hook counted from the responder outwards
     /\ phase = "after" /\ i <= na
     /\ \/ /\ act = "ret"
           /\ calls' = Append(calls, Call("after", i, "ret", "", TRUE, FALSE, 0))
-          /\ i' = i + 1 /\ UNCHANGED <<phase, pend, body, faults>>
+          /\ i' = i + 1 /\ UNCHANGED <<phase, pend, body, vary, faults>>
        \/ /\ act = "raise"
           /\ RaiseAt("after", i, cls, "enter", TRUE) /\ faults' = faults + 1 /\ UNCHANGED i
-    /\ UNCHANGED <<cfgv, reg, complete, succeeded, hasres, dep, left, status, hdrs, vary, escaped>>
+    /\ UNCHANGED <<cfgv, reg, complete, succeeded, hasres, dep, left, status, hdrs, escaped>>
 
 AfterDone ==
     /\ phase = "after" /\ i > na
@@ -223,11 +242,11 @@ RespCall(act, cls) ==
     /\ phase = "resp" /\ left # <<>>
     /\ \/ /\ act = "ret"
           /\ calls' = Append(calls, Call("resp", Head(left), "ret", "", hasres, succeeded, 0))
-          /\ left' = Tail(left) /\ UNCHANGED <<phase, pend, body, faults>>
+          /\ left' = Tail(left) /\ UNCHANGED <<phase, pend, body, vary, faults>>
        \/ /\ act = "raise"
           /\ RaiseAt("resp", Head(left), cls, "loop", TRUE)
           /\ left' = Tail(left) /\ faults' = faults + 1
-    /\ UNCHANGED <<cfgv, reg, i, complete, succeeded, hasres, dep, status, hdrs, vary, escaped>>
+    /\ UNCHANGED <<cfgv, reg, i, complete, succeeded, hasres, dep, status, hdrs, escaped>>
 
 RespDone ==
     /\ phase = "resp" /\ left = <<>> /\ phase' = "render"
@@ -265,13 +284,14 @@ Effect(h) ==
     LET beh == reg[h].beh
         b0  == ResetBeforeHandler
         r(st, bd, hd, vy, esc) == [st |-> st, bd |-> bd, hd |-> hd, vy |-> vy, esc |-> esc]
-    IN  CASE beh = "def500"    -> r(500, [k |-> "e500", id |-> 0], hdrs, TRUE, FALSE)
-          [] beh = "defErr"    -> r(StatusOf[pend.cls], [k |-> "err", id |-> pend.idx], hdrs \cup {pend.idx}, TRUE, FALSE)
-          [] beh = "defStatus" -> r(StatusOf[pend.cls], [k |-> "stext", id |-> pend.idx], hdrs \cup {pend.idx}, vary, FALSE)
+        own == IF OwnVary[pend.cls] THEN {-pend.idx} ELSE vary   \* set_headers replaces an earlier Vary
+    IN  CASE beh = "def500"    -> r(500, [k |-> "e500", id |-> 0], hdrs, vary \cup {0}, FALSE)
+          [] beh = "defErr"    -> r(StatusOf[pend.cls], [k |-> "err", id |-> pend.idx], hdrs \cup {pend.idx}, own \cup {0}, FALSE)
+          [] beh = "defStatus" -> r(StatusOf[pend.cls], [k |-> "stext", id |-> pend.idx], hdrs \cup {pend.idx}, own, FALSE)
           [] beh = "set"       -> r(SetStatus(h), [k |-> "hset", id |-> Idx], hdrs, vary, FALSE)
           [] beh = "setbad"    -> r(SetStatus(h), [k |-> "hbad", id |-> Idx], hdrs, vary, FALSE)
           [] beh = "noop"      -> r(status, b0, hdrs, vary, FALSE)
-          [] beh = "http"      -> r(HandlerErrStatus, [k |-> "err", id |-> Idx], hdrs \cup {Idx}, TRUE, FALSE)
+          [] beh = "http"      -> r(HandlerErrStatus, [k |-> "err", id |-> Idx], hdrs \cup {Idx}, vary \cup {0}, FALSE)
           [] beh = "status"    -> r(HandlerStStatus, [k |-> "stext", id |-> Idx], hdrs \cup {Idx}, vary, FALSE)
           [] beh = "other"     -> r(status, b0, hdrs, vary, TRUE)     \* propagates: outside the property's promise
 
@@ -306,7 +326,7 @@ Next == \/ \E c \in RegClasses, b \in RegBehs : AddHandler(c, b)
                                                \/ AfterCall(p[1], p[2]) \/ RespCall(p[1], p[2])
         \/ RenderCall("ret", "") \/ \E c \in RenderClasses : RenderCall("raise", c) \/ RenderBad(c)
         \/ ReqSkip \/ ReqDone \/ Route \/ RsrcSkip \/ RsrcDone \/ BeforeDone \/ NotFound \/ AfterDone \/ RespDone
-        \/ HandleCall
+        \/ HandleCall \/ NextRequest
 
 Spec == Init /\ [][Next]_vars
 
@@ -377,14 +397,15 @@ LastCall == calls[Len(calls)]
 JustHandled == calls # <<>> /\ LastCall.site = "handler" /\ pend.back # "fallback"
 HandlerRaisedErrorIsRendered ==
     /\ JustHandled /\ reg[LastCall.c].beh = "http"
-          => status = HandlerErrStatus /\ body = [k |-> "err", id |-> Len(calls)] /\ Len(calls) \in hdrs /\ vary
+          => status = HandlerErrStatus /\ body = [k |-> "err", id |-> Len(calls)] /\ Len(calls) \in hdrs /\ 0 \in vary
     /\ JustHandled /\ reg[LastCall.c].beh = "status"
           => status = HandlerStStatus /\ body = [k |-> "stext", id |-> Len(calls)] /\ Len(calls) \in hdrs
     /\ JustHandled /\ reg[LastCall.c].beh = "set"
           => status = SetStatus(LastCall.c) /\ body = [k |-> "hset", id |-> Len(calls)]
 DefaultRendering ==
     /\ JustHandled /\ reg[LastCall.c].beh = "defErr"
-          => status = StatusOf[LastCall.cls] /\ body = [k |-> "err", id |-> LastCall.x] /\ LastCall.x \in hdrs /\ vary
+          => status = StatusOf[LastCall.cls] /\ body = [k |-> "err", id |-> LastCall.x] /\ LastCall.x \in hdrs /\ 0 \in vary
+             /\ (OwnVary[LastCall.cls] => -LastCall.x \in vary)
     /\ JustHandled /\ reg[LastCall.c].beh = "defStatus"
           => status = StatusOf[LastCall.cls] /\ body = [k |-> "stext", id |-> LastCall.x] /\ LastCall.x \in hdrs
     /\ JustHandled /\ reg[LastCall.c].beh = "def500" => status = 500 /\ body.k = "e500"
